@@ -92,6 +92,7 @@ class Frame:
         self.depth = depth
         self.loopdepth = 0
         self.trystack = []
+        self.iters = {}  # loop depth -> iterable the bound variable ranges over
 
     def fork(self, extra_guard=None):
         f = Frame(self.ev, self.modname, self.fi, self.summary, self.depth)
@@ -100,6 +101,7 @@ class Frame:
         f.facts = list(self.facts)
         f.loopdepth = self.loopdepth
         f.trystack = list(self.trystack)
+        f.iters = dict(self.iters)
         return f
 
 
@@ -674,6 +676,8 @@ class Evaluator:
         carried = [v for v in assigned if v in fr.env]
         sub = fr.fork(T("iter", (d,), tm.BOOL))
         sub.loopdepth = d + 1
+        if it is not None:
+            sub.iters[d] = it
         for v in carried:
             info.init[v] = fr.env[v]
             sub.env[v] = T("acc", (v, d), tm.tyof(fr.env[v]))
@@ -697,6 +701,13 @@ class Evaluator:
         if sub.env.pop("__loopctl__", None):
             info.has_break = True
         info.exits = fr.summary.exits[n0:]
+        if isinstance(st, ast.For) and not info.has_break:
+            # an assert inside a for loop establishes its condition for every element once the loop is left
+            for ex in info.exits:
+                if ex.kind == "raise" and ex.guard and isinstance(ex.guard[-1], T):
+                    own = ex.guard[len(fr.guard):]
+                    if len(own) == 2 and isinstance(own[0], T) and own[0].op == "iter" and own[0].args[0] == d:
+                        fr.facts.append(T("forall", (d, tm._fz(it), tm.lnot(own[1])), tm.BOOL))
         for v in assigned:
             if v in sub.env:
                 info.body[v] = sub.env[v]
@@ -760,7 +771,7 @@ class Evaluator:
 
     def hazard(self, fr, exc, operand, node):
         fr.summary.hazards.append((exc, operand, node, tuple(fr.guard), tuple(fr.facts),
-                                   fr.fi.qualname if fr.fi else "<module>"))
+                                   fr.fi.qualname if fr.fi else "<module>", dict(fr.iters)))
 
     def e_Constant(self, e, fr):
         return e.value
@@ -1022,6 +1033,8 @@ class Evaluator:
         if isinstance(base, T) and base.op in ("field", "bv") and isinstance(key, str):
             return T("field", (base, key))
         r = tm.idx(base, key)
+        if isinstance(base, T) and base.op == "map" and base.args[2] is None and not (isinstance(r, T) and r.op == "idx" and tm.veq(r.args[0], base)):
+            self.hazard(self._cur, "IndexError", tm.idx(T("seq", (base.args[1],), tm.LIST), key), self._curnode)
         if isinstance(r, T) and r.op == "idx" and tm.veq(r.args[0], base):
             self.hazard(self._cur, "IndexError" if tm.tyof(base) != tm.DICT else "KeyError", r, self._curnode)
         elif isinstance(r, T) and r.op == "raise":
@@ -1083,6 +1096,7 @@ class Evaluator:
                 return out
         d = sub.loopdepth
         sub.loopdepth = d + 1
+        sub.iters[d] = it
         elem_ty = tm.INT if tm.tyof(it) == tm.BYTES else tm.ANY
         if isinstance(it, T) and it.op == "enumerate":
             self.assign(gen.target, (T("bvi", (d,), tm.INT), tm.bv(d)), sub)
@@ -1192,8 +1206,8 @@ class Evaluator:
             return tm.app(q, pos, tuple(sorted(kw.items())), ty=rty)
         sub = self.run(fi, bound, depth=fr.depth + 1)
         fr.summary.loops.extend(sub.loops)
-        fr.summary.hazards.extend((h[0], h[1], h[2], tuple(fr.guard) + tuple(h[3]), tuple(fr.facts) + tuple(h[4]), h[5])
-                                  for h in sub.hazards)
+        fr.summary.hazards.extend((h[0], h[1], h[2], tuple(fr.guard) + tuple(h[3]), tuple(fr.facts) + tuple(h[4]), h[5],
+                                   _merge_iters(fr.iters, h[6] if len(h) > 6 else {})) for h in sub.hazards)
         fr.summary.calls.extend((c[0], c[1], c[2], c[3], tuple(fr.guard) + tuple(c[4]),
                                  tuple(fr.facts) + tuple(c[5] if len(c) > 5 else ())) for c in sub.calls)
         # exits form an ordered decision list: the negation of a raise guard is a fact for the caller only while no
@@ -1492,6 +1506,12 @@ class Evaluator:
         if n == "os.path.join":
             return T("pathjoin", tuple(pos), tm.STR)
         return NotImplemented
+
+
+def _merge_iters(a, b):
+    d = dict(a)
+    d.update(b)
+    return d
 
 
 def _site(e):
